@@ -397,6 +397,11 @@ def run(ctx, rep):
     from sa import dtypes
     rep.rule('C08.T', "times / dates given as Python numbers enter the computation at the requested precision: a tensor built from them without a dtype (torch's default float32) is neither computed with nor converted afterwards")
     dtypes.check_default_precision(ctx, rep, 'C08.T', ['torchtree.evolution.coalescent'], 3)
+    rep.rule('C08.O', "vectors in the order of the argument and vectors in sorted order are kept apart: element-wise operations, masked selections, gathers and scatters combine one family only (order-kind analysis of every sorting method of coalescent.py)")
+    from sa import orders
+    orders.check_orders(ctx, rep, 'C08.O', MOD, floor=8)
+    rep.rule('C08.G', "one tree with a batch of population sizes: the fixed heights are expanded to the batch shape before sorting (torch.gather does not broadcast its index)")
+    check_fixed_tree_expanded(ctx, rep)
     rep.rule('C08.B', "the density of one tree is a function of that tree and its parameters only: no whole-tensor reduction (no axis named) of a value that can carry a sample dimension in the coalescent module (C10.D machinery)")
     from props import c10
     from sa.report import RuleProxy
@@ -433,3 +438,55 @@ def run(ctx, rep):
     rep.rule('C08.H', "the coalescent models listen to every parameter their density reads: none is stored past Parametric.__setattr__ (self.__dict__ writes)")
     c11.check_dict_writes(ctx, RuleProxy(rep, 'C08.H', ''), only=lambda c: c.module.name == MOD)
     rep.ok('C08.H', 'coalescent::direct-dict-writes-examined', '', {'sites': rep.analysed.get('dict_write_sites[C08.H]', 0)})
+
+
+def check_fixed_tree_expanded(ctx, rep):
+    """C08.G — `if node_heights.dim() < self.theta.dim():` is the case of ONE tree evaluated with a batch of population sizes.  torch.gather does not broadcast its
+    index: the lookups `theta.gather(-1, indices)` return one row per row of the indices, so the fixed heights must be expanded to the batch shape before the events are
+    sorted; with singleton batch dimensions instead (reshape / unsqueeze) every sample silently gets the population sizes of the first one."""
+    m = ctx.prog.module(MOD)
+    n = 0
+    for cname, cnode in sorted(m.classes.items()):
+        for fn in cnode.body:
+            if not isinstance(fn, ast.FunctionDef):
+                continue
+            for node in ast.walk(fn):
+                if not isinstance(node, ast.If):
+                    continue
+                t = node.test
+                if not (isinstance(t, ast.Compare) and len(t.ops) == 1 and isinstance(t.ops[0], ast.Lt) and isinstance(t.left, ast.Call) and isinstance(t.left.func, ast.Attribute)
+                        and t.left.func.attr == 'dim' and isinstance(t.left.func.value, ast.Name) and isinstance(t.comparators[0], ast.Call)
+                        and isinstance(t.comparators[0].func, ast.Attribute) and t.comparators[0].func.attr == 'dim'):
+                    continue
+                small = t.left.func.value.id
+                uses, bad = [], []
+                for st in node.body:
+                    for x in ast.walk(st):
+                        if isinstance(x, ast.Name) and x.id == small and isinstance(x.ctx, ast.Load):
+                            # climb through slices of the fixed vector
+                            top = x
+                            p_ = getattr(top, '_parent', None)
+                            while isinstance(p_, ast.Subscript) and p_.value is top:
+                                top, p_ = p_, getattr(p_, '_parent', None)
+                            if isinstance(p_, ast.Attribute) and p_.value is top and p_.attr in ('shape', 'dtype', 'device', 'dim', 'ndim'):
+                                continue
+                            uses.append(x)
+                            call = getattr(p_, '_parent', None) if isinstance(p_, ast.Attribute) and p_.value is top else None
+                            ok = isinstance(p_, ast.Attribute) and p_.attr == 'expand' and isinstance(call, ast.Call) and call.func is p_ \
+                                and any(isinstance(y, ast.Name) and 'batch' in y.id for a in call.args for y in ast.walk(a))
+                            if not ok:
+                                bad.append(x)
+                if not uses:
+                    continue
+                n += 1
+                st0 = bad[0] if bad else node
+                while not isinstance(st0, ast.stmt):
+                    st0 = getattr(st0, '_parent', None)
+                rep.check('C08.G', f"{cname}.{fn.name}::fixed-tree-expanded-to-the-batch-of-{ast.unparse(t.comparators[0].func.value)}", not bad, where(m, st0),
+                          {'uses_of_the_fixed_vector': len(uses), 'not_expanded': [norm_text(getattr(b, '_parent', b))[:60] for b in bad]},
+                          f"{cname}.{fn.name}: in the branch `{ast.unparse(t)}` (one tree, a batch of population sizes) `{small}` is used without `.expand(batch_shape + …)` "
+                          f"(`{norm_text(st0)[:70]}`): the sorted indices then have singleton batch dimensions and `theta.gather(-1, indices)` — which does not broadcast its index — "
+                          f"returns the first sample's population sizes for every sample")
+    rep.analysed['fixed_tree_branches'] = n
+    if n < 4:
+        rep.incomplete('C08.G', '*', '', f"only {n} `x.dim() < y.dim()` branches found in coalescent.py")
